@@ -33,7 +33,10 @@ func extNonNil(e *Env, fr *Frame, fn *ssa.Function, args []Value, rt types.Type,
 	return v
 }
 
-var externs = map[string]externFn{
+var externs map[string]externFn
+
+func init() {
+	externs = map[string]externFn{
 	"(*sync.Mutex).Lock":      extNoop,
 	"(*sync.Mutex).Unlock":    extNoop,
 	"(*sync.RWMutex).Lock":    extNoop,
@@ -58,6 +61,8 @@ var externs = map[string]externFn{
 	"slices.Index":            extSlicesIndex,
 	"slices.Contains":         extSlicesContains,
 	"slices.Clone":            extSlicesClone,
+	"slices.ContainsFunc":     extSlicesContainsFunc,
+	"slices.IndexFunc":        extSlicesIndexFunc,
 	"math.Ceil":               extMathCeil,
 	"context.WithCancel":      extNoop,
 	"context.Background":      extNoop,
@@ -65,6 +70,7 @@ var externs = map[string]externFn{
 	"(*strings.Builder).String":      extNoop,
 	"strconv.Itoa":                   extNoop,
 	"(*math/rand.Rand).Shuffle":      nil, // needs a dedicated model; absent = unsupported
+}
 }
 
 func findExtern(name string, fn *ssa.Function) externFn {
@@ -165,6 +171,7 @@ func extSlicesClone(e *Env, fr *Frame, fn *ssa.Function, args []Value, rt types.
 		e.assume(fmt.Sprintf("(forall ((%s Int)) (! (=> (and (<= 0 %s) (< %s %s)) (= (select %s %s) (select (select %s %s) (+ %s %s)))) :pattern ((select %s %s))))",
 			j, j, j, s.Len, ni, j, arr, s.Arr, s.Off, j, ni, j))
 		e.heapSet(st, name, sorts[i], e.maybeName(mkStore(arr, r, ni), sorts[i]))
+		e.noteWrite(name, r)
 	}
 	// Clone(nil) is nil; otherwise a fresh array with cap >= len
 	cp := e.fresh("clonecap", sInt)
@@ -179,4 +186,42 @@ func extMathCeil(e *Env, fr *Frame, fn *ssa.Function, args []Value, rt types.Typ
 		return &Sc{T: sx("fp.roundToIntegral", "RTP", a.T), Sort: a.Sort, Typ: rt}
 	}
 	return &Sc{T: sx(e.uninterpUnop("ceil"), a.T), Sort: sInt, Typ: rt}
+}
+
+// closureAt evaluates a predicate closure on element j of slice s (j may be a bound variable).
+func (e *Env) closureAt(pred Value, s *Slice, j string, st *State) string {
+	fv, ok := pred.(*FuncV)
+	if !ok || fv.Fn == nil {
+		unsupp("predicate passed to a slices function is not a statically known closure")
+	}
+	et := s.Typ.Underlying().(*types.Slice).Elem()
+	e.quantDepth++
+	defer func() { e.quantDepth-- }()
+	elem := e.load(st, &Ptr{Kind: "elem", Ref: s.Arr, Idx: sx("+", s.Off, j), Root: et})
+	res := e.pureCall(fv.Fn, fv.Bind, []Value{elem}, st)
+	return res[0].(*Sc).T
+}
+
+// slices.ContainsFunc(s, p) == exists j. p(s[j])
+func extSlicesContainsFunc(e *Env, fr *Frame, fn *ssa.Function, args []Value, rt types.Type, st *State) Value {
+	s := args[0].(*Slice)
+	j := "|$j|"
+	p := e.closureAt(args[1], s, j, st)
+	r := e.fresh("containsfunc", sBool)
+	e.assume(mkEq(r, fmt.Sprintf("(exists ((%s Int)) (and (<= 0 %s) (< %s %s) %s))", j, j, j, s.Len, p)))
+	return boolV(r)
+}
+
+// slices.IndexFunc(s, p): first index with p, or -1
+func extSlicesIndexFunc(e *Env, fr *Frame, fn *ssa.Function, args []Value, rt types.Type, st *State) Value {
+	s := args[0].(*Slice)
+	j := "|$j|"
+	p := e.closureAt(args[1], s, j, st)
+	r := e.fresh("indexfunc", sInt)
+	pr := e.closureAt(args[1], s, r, st)
+	e.assume(mkOr(
+		mkAnd(mkEq(r, "(- 1)"), fmt.Sprintf("(forall ((%s Int)) (=> (and (<= 0 %s) (< %s %s)) (not %s)))", j, j, j, s.Len, p)),
+		mkAnd(sx("<=", "0", r), sx("<", r, s.Len), pr,
+			fmt.Sprintf("(forall ((%s Int)) (=> (and (<= 0 %s) (< %s %s)) (not %s)))", j, j, j, r, p))))
+	return intV(r, rt)
 }
